@@ -3384,7 +3384,29 @@ def _resolve_rowadd(mv, t):
         full = [x for x in (rows(V), LEN(V), AT_(SHAPE(V), 0), LEN(m), SIZE(m), AT_(SHAPE(m), 0)) if x is not None]
         if all(n in full for n in (N.args if fname(N) == "MINLEN" else [N])):
             return ROWADD(V, m)
+    if isinstance(t, sp.Add):
+        # the broadcast form `V + m.reshape(K, 1)` (also in place): a vector m laid out as a (K, 1) column is stretched over the
+        # columns of the matrix V, so row i gets m[i] -- the same sum as the loop -- when K is the row count of V or the length of m
+        # (any other K either fails in reshape or is not shown here to cover the rows: the term is left as it is, see _open_column)
+        cols = [a for a in t.args if _is_column(mv, a)]
+        if len(cols) == 1:
+            m, K = cols[0].args[0], cols[0].args[1]
+            V = sp.Add(*[a for a in t.args if a is not cols[0]])
+            full = [x for x in (rows(V), LEN(m), SIZE(m), AT_(SHAPE(m), 0)) if x is not None]
+            if mv.rank(V) == 2 and K in full:
+                return ROWADD(V, m)
     return t
+
+
+def _is_column(mv, a):
+    """a is RESHAPE(m, K, 1) of a vector m: the (K, 1) column with the elements of m"""
+    return fname(a) == "RESHAPE" and len(a.args) == 3 and a.args[2] == 1 and mv.rank(a.args[0]) == 1
+
+
+def _open_column(mv, t):
+    """t still adds a (K, 1) column of a vector to something, with a K that _resolve_rowadd did not relate to the rows of the other
+    operand: what the broadcast does is not decided by the term rules"""
+    return isinstance(t, sp.Basic) and any(isinstance(x, sp.Add) and any(_is_column(mv, a) for a in x.args) for x in sp.preorder_traversal(t))
 
 
 # ---- how a term scales with one of its inputs ----------------------------------------------------------------------------------
@@ -3623,6 +3645,9 @@ def cholesky(chk, repo):
             elif not teq(c0, w0):
                 okr = False
                 detail += "; means=None returns %s" % str(c0)[:200]
+        if okr is False and (_open_column(mv, c) or (method and _open_column(mv, c1))):
+            okr = None
+            detail += "; a (K, 1) column is broadcast-added with a K not related to the rows of the other operand: not decided"
         chk.ob(R, keys[3], okr, w, "result is (n, npar): the transpose of M.r + mean (%s)" % detail)
         if not method:
             ch = applications(c, "CHOL")
